@@ -636,6 +636,12 @@ class Model:
             clen, cnt, head = (list(tc) + [1, 1, 0])[:3]
             comps = [('abcdefghij'[(i % 7):(i % 7) + max(1, clen)] or 'a') for i in range(max(1, cnt))]
             return self.TX_HEADS[head % len(self.TX_HEADS)] + '/'.join(comps)
+        td = op.get('td')
+        if td:
+            # 'td' = [n, k]: a filler component of n bytes, then a component that begins with dots and goes on ('.profile', '..data'):
+            # somewhere along n the first dot(s) of it are all that still fits the record / the SL entry
+            n, k = (list(td) + [0, 0])[:2]
+            return 'd' * max(1, n) + '/' + ['.profile', '..data', '.x', '..', '.a/.b/.c'][k % 5]
         tx = op.get('tx')
         if not tx:
             return self.target(op.get('tgt', 0))
